@@ -6,18 +6,21 @@ REL = 'crates/grafeo-core/src/execution/spill/serializer.rs'
 
 
 def build(repo):
-    u = KaniUnit('spill', ['C16'], 'grafeo-core', cargo_args=['--no-default-features'], copy_crates=['grafeo-common', 'grafeo-core'])
+    u = KaniUnit('spill', ['C16'], 'grafeo-core', cargo_args=['--no-default-features', '--features', 'spill'], copy_crates=['grafeo-common', 'grafeo-core'])
     u.module = 'execution::spill::serializer::verif_spill'
     u.append(REL, open(os.path.join(os.path.dirname(os.path.dirname(os.path.abspath(__file__))), 'kani', 'spill.rs')).read())
     P = 'spill::serialize_value/deserialize_value::roundtrip_bit_for_bit'
     for n, ob in [('scalar_null_bool', P + '[Null,Bool]'), ('scalar_int64', P + '[Int64]'), ('scalar_float64_bit_for_bit', P + '[Float64]'), ('scalar_timestamp', P + '[Timestamp]')]:
         u.harness(n, ob, timeout=600)
-    for n, ob, b in [('bytes_upto_3', P + '[Bytes,len<=3]', 'payload <= 3 bytes'), ('vector_upto_2_bit_for_bit', P + '[Vector,len<=2]', '<= 2 f32 components'),
-                     ('ascii_string_upto_2', P + '[String,ascii,len<=2]', 'ASCII strings of <= 2 bytes'),
-                     ('row_of_two_scalars', 'spill::serialize_row/deserialize_row::roundtrip_bit_for_bit[2 scalar columns]', 'rows of exactly 2 scalar columns')]:
+    for n, ob, b in [('bytes_len0', P + '[Bytes,len=0]', 'payload of 0 bytes'), ('bytes_len1', P + '[Bytes,len=1]', 'payload of 1 byte'), ('bytes_len3', P + '[Bytes,len=3]', 'payload of 3 bytes'),
+                     ('vector_len0', P + '[Vector,len=0]', '0 f32 components'), ('vector_len2', P + '[Vector,len=2]', '2 f32 components (every bit pattern)'),
+                     ('ascii_string_len0', P + '[String,len=0]', 'the empty string'),
+                     ('row_int_float', 'spill::serialize_row/deserialize_row::roundtrip_bit_for_bit[Int64,Float64]', 'rows of exactly these 2 scalar columns'),
+                     ('row_null_bool', 'spill::serialize_row/deserialize_row::roundtrip_bit_for_bit[Null,Bool]', 'rows of exactly these 2 scalar columns'),
+                     ('row_float_int', 'spill::serialize_row/deserialize_row::roundtrip_bit_for_bit[Float64,Int64]', 'rows of exactly these 2 scalar columns')]:
         u.harness(n, ob, kind='bounded', bound=b, timeout=900)
     u.functions = [('serialize_value, deserialize_value, serialize_row, deserialize_row', REL)]
     u.assumptions = ['writer = &mut [u8], reader = &[u8] (std impls); the byte count returned by serialize_* is checked against the bytes written']
-    u.not_covered = ['List / Map values (recursion over Arc<[Value]> / BTreeMap), non-ASCII strings, longer payloads', 'bincode (WAL records, snapshots) and JSON (bindings): external serializers']
+    u.not_covered = ['List / Map values (recursion over Arc<[Value]> / BTreeMap), NON-EMPTY strings (String::from_utf8 on symbolic bytes: CBMC > 15 min), longer payloads', 'bincode (WAL records, snapshots) and JSON (bindings): external serializers']
     u.ignore_checks = [r'^NaN on (addition|subtraction|multiplication|division)']
     return u
